@@ -3,6 +3,7 @@
 # each is applied to a scratch worktree of /repo, must build and pass the existing suite, and then
 # ./check <prop> quick (from a separate verif worktree, built against the patched scratch tree) is
 # expected to exit 0. Records /verif/seeded/harmless/<prop>/{patch.diff,meta.json}.
+# HVAR selects the variant directory (default h); with another letter the record goes to <prop>-<letter>.
 # usage: tools/validate_harmless.sh <scratch-repo> <verif-worktree> [props...]
 set -u
 export GOFLAGS=-mod=mod GOPROXY=off GOSUMDB=off GOTOOLCHAIN=local
@@ -13,10 +14,12 @@ PROPS="$@"
 OUT=${HOUT:-/verif/seeded/harmless}
 mkdir -p $OUT
 for prop in $PROPS; do
-  src=$MUTSRC/$prop/h
-  [ -f $src/patch.diff ] || { echo "$prop-h: no patch"; continue; }
+  HV=${HVAR:-h}
+  src=$MUTSRC/$prop/$HV
+  od=$OUT/$prop; [ "$HV" != h ] && od=$OUT/$prop-$HV
+  [ -f $src/patch.diff ] || { echo "$prop-$HV: no patch"; continue; }
   git -C $SR checkout -q -- . ; git -C $SR clean -fdq
-  if ! git -C $SR apply $src/patch.diff 2>/tmp/harm${TAG:-}_apply.log; then echo "$prop-h: patch does not apply"; continue; fi
+  if ! git -C $SR apply $src/patch.diff 2>/tmp/harm${TAG:-}_apply.log; then echo "$prop-$HV: patch does not apply"; continue; fi
   (cd $SR && go build ./... >/tmp/harm${TAG:-}_build.log 2>&1); build_rc=$?
   suite_rc=1; attempts=0
   while [ $suite_rc -ne 0 ] && [ $attempts -lt 3 ]; do
@@ -31,10 +34,10 @@ for prop in $PROPS; do
     clause=$(python3 -c "import json; r=json.load(open('$replay')); print(r.get('kind',''),'::',(r.get('clause') or r.get('theorem') or r.get('correspondence') or '')[:300])")
   fi
   git -C $SR checkout -q -- . ; git -C $SR clean -fdq
-  echo "$prop-h: build=$build_rc suite=$suite_rc(attempts $attempts) check=$check_rc :: $viol :: $clause"
-  mkdir -p $OUT/$prop
-  cp $src/patch.diff $OUT/$prop/patch.diff
-  python3 - "$OUT/$prop/meta.json" "$prop" "$build_rc" "$suite_rc" "$check_rc" "$clause" "$(git -C $VW rev-parse --short HEAD)" <<'PY'
+  echo "$prop-$HV: build=$build_rc suite=$suite_rc(attempts $attempts) check=$check_rc :: $viol :: $clause"
+  mkdir -p $od
+  cp $src/patch.diff $od/patch.diff
+  python3 - "$od/meta.json" "$prop" "$build_rc" "$suite_rc" "$check_rc" "$clause" "$(git -C $VW rev-parse --short HEAD)" <<'PY'
 import json,sys
 out,prop,b,s,c,clause,vc=sys.argv[1:8]
 json.dump({"id": prop+"-h", "property": prop, "kind": "behaviour-preserving refactor",
